@@ -648,6 +648,10 @@ func evalBranchStmt(vm *r.VM, node *syntax.BranchStmt) error {
 	}
 	// exec else-if branches
 	for idx, otherExpr := range node.OtherExprs {
+		// the condition of a 再如 branch is evaluated on the line of that branch
+		if idx < len(node.OtherLines) {
+			vm.SetCurrentLine(node.OtherLines[idx])
+		}
 		otherExprI, err := evalExpression(vm, otherExpr)
 		if err != nil {
 			return err
